@@ -1,6 +1,7 @@
 package analysis
 
 import (
+	"github.com/go-openapi/analysis/internal/antipanic"
 	"github.com/go-openapi/spec"
 	"github.com/go-openapi/strfmt"
 )
@@ -119,7 +120,9 @@ func (a *AnalyzedSchema) inferFromRef() error {
 
 		sch := new(spec.Schema)
 		sch.Ref = a.schema.Ref
-		err := spec.ExpandSchema(sch, a.root, nil)
+		err := antipanic.Run(func() error {
+			return spec.ExpandSchema(sch, a.root, nil)
+		})
 		if err != nil {
 			return err
 		}
